@@ -1,4 +1,5 @@
 import PromProofs.ChunkXorSim
+import PromProofs.ChunkXor2Round
 /-
   C10 — Float chunks return exactly what was appended (classic XOR chunk, `tsdb/chunkenc/xor.go`,
   `bstream.go`, `varbit.go`).  Property theorems only; lemmas live in `PromProofs/`.
@@ -121,6 +122,121 @@ def seek_first_geq_full : Prop :=
 theorem seek_first_geq_partial :
     ∀ t ∈ ([-5, 1000, 1001, 2000, 2999, 3000, 3001, 4007, 4008] : List Int),
       seekOK (three ++ [(4007, 0x4008000000000000)]) t = true := by
+  decide +kernel
+
+/-! ## XOR2 chunk with start timestamps (`tsdb/chunkenc/xor2.go`), model `PromModel/Tsdb/ChunkXor2.lean`
+
+  Samples are triples `(st, t, value bits)`. -/
+
+/-- The XOR2 value code `<varbit_xor2>` (`0 | 10 | 110 | 111 = stale NaN`) round-trips for ALL baselines and
+    values; the XOR baseline moves to the new value unless it is the staleness marker. -/
+theorem xor2_value_roundtrip (base v el et dl dt : Nat) (rest : Bits)
+    (hb : base < 2 ^ 64) (hv : v < 2 ^ 64) (hrel : WinRel el et dl dt) :
+    ∃ dl' dt', ChunkXor2.decodeValue base dl dt ((ChunkXor2.writeVDelta base el et v).1 ++ rest)
+        = some (v, ChunkXor2.baseOf base v, dl', dt', rest) ∧
+      WinRel (ChunkXor2.writeVDelta base el et v).2.1 (ChunkXor2.writeVDelta base el et v).2.2 dl' dt' :=
+  ChunkXor2.decodeValue_writeVDelta base v el et dl dt rest hb hv hrel
+
+example : WinRel 255 0 0 0 ∧ WinRel 12 7 12 7 := ⟨Or.inl rfl, Or.inr ⟨rfl, rfl⟩⟩
+
+/-- The joint timestamp+value code of samples ≥ 2 (control prefix `0|10|110|1110|11110|11111`, byte-packed
+    13/20-bit and escaped 64-bit delta-of-delta with the symmetric bucket bounds, value codes, the appender's
+    three-way fast-path switch) round-trips for ALL int64 timestamps and value patterns. -/
+theorem xor2_joint_roundtrip (a : ChunkXor2.App) (d : ChunkXor2.Dec) (t : Int) (v : Nat) (rest : Bits)
+    (h : ChunkXor2.TVRel a d) (ht : I64 t) (hv : v < 2 ^ 64) :
+    ∃ dl' dt', ChunkXor2.decTV d ((ChunkXor2.tvBits a.v a.leading a.trailing (ChunkXor2.dodOf a t) v).1 ++ rest)
+        = some (t, v, ChunkXor2.baseOf a.v v, toU (t - a.t), dl', dt', rest) ∧
+      WinRel (ChunkXor2.tvBits a.v a.leading a.trailing (ChunkXor2.dodOf a t) v).2.1
+        (ChunkXor2.tvBits a.v a.leading a.trailing (ChunkXor2.dodOf a t) v).2.2 dl' dt' :=
+  ChunkXor2.decTV_tvBits a d t v rest h ht hv
+
+example : ChunkXor2.TVRel ⟨0, 2000, 5, 1000, 0, 255, 0, 0, false⟩ ⟨0, 2000, 5, 5, 1000, 0, 0, 0⟩ :=
+  ⟨Or.inl rfl, rfl, by decide, rfl, by decide, rfl, by decide⟩
+
+/-- `firstSTChangeOn` always fits the 7 bits of the ST header byte (the change is forced at index 127). -/
+theorem xor2_st_header_fits (ss : List ChunkXor2.Sample3) :
+    (ChunkXor2.encState 0 ChunkXor2.appInit ss).fsco ≤ 127 :=
+  ChunkXor2.fsco_le ss 0 ChunkXor2.appInit (by decide) (fun _ => by decide) (fun h => absurd rfl h)
+
+/-- The first two samples (varint t, raw value, optional varint ST; uvarint delta, value code, optional
+    first ST difference) decode to what was appended, for every final ST header the rest of the chunk
+    can produce. -/
+theorem xor2_first_sample_roundtrip (K : Bool) (F : Nat) (a : ChunkXor2.App) (d : ChunkXor2.Dec)
+    (st t : Int) (v : Nat) (rest : Bits)
+    (hrel : ChunkXor2.StRel K F 0 a d) (hst : I64 st) (ht : I64 t) (hv : v < 2 ^ 64)
+    (hpost : ChunkXor2.Post K F 1 (ChunkXor2.encSample 0 a st t v).2) :
+    ∃ d', ChunkXor2.decSample K F 0 d ((ChunkXor2.encSample 0 a st t v).1 ++ rest) = some (d', rest) ∧
+      ChunkXor2.StRel K F 1 (ChunkXor2.encSample 0 a st t v).2 d' ∧ d'.st = st ∧ d'.t = t ∧ d'.val = v :=
+  ChunkXor2.step0 K F a d st t v rest hrel hst ht hv hpost
+
+theorem xor2_second_sample_roundtrip (K : Bool) (F : Nat) (a : ChunkXor2.App) (d : ChunkXor2.Dec)
+    (st t : Int) (v : Nat) (rest : Bits)
+    (hrel : ChunkXor2.StRel K F 1 a d) (hst : I64 st) (ht : I64 t) (hv : v < 2 ^ 64)
+    (hpost : ChunkXor2.Post K F 2 (ChunkXor2.encSample 1 a st t v).2) :
+    ∃ d', ChunkXor2.decSample K F 1 d ((ChunkXor2.encSample 1 a st t v).1 ++ rest) = some (d', rest) ∧
+      ChunkXor2.StRel K F 2 (ChunkXor2.encSample 1 a st t v).2 d' ∧ d'.st = st ∧ d'.t = t ∧ d'.val = v :=
+  ChunkXor2.step1 K F a d st t v rest hrel hst ht hv hpost
+
+example (K : Bool) (F : Nat) : ChunkXor2.StRel K F 0 ChunkXor2.appInit ChunkXor2.decInit := ChunkXor2.StRel_init K F
+
+/-- The one-sample simulation step for samples ≥ 2 INCLUDING the start-timestamp data (fast path / active-ST
+    path / first-change path with the forced change at index 127): iterator state tracks appender state.
+    Its timestamp+value half is `xor2_joint_roundtrip` (proved); the proof script for the ST bookkeeping
+    half is kept as a comment at the end of `PromProofs/ChunkXor2Round.lean`: its elaboration did not
+    terminate within the time budget (suspected: a definitional-unfolding blow-up on `% two64`). -/
+def xor2_step_full : Prop := ChunkXor2.StepN
+
+/-- Whole XOR2 chunks including start timestamps: decoding the chunk bytes (sample count, ST header byte,
+    packed stream) returns exactly the appended `(st, t, value bits)` triples, for ALL int64 timestamps and
+    start timestamps and all 64-bit patterns, up to capacity — PROVIDED the one-sample step `xor2_step_full`.
+    Proved here: the induction over the sample list with the FINAL header as parameter (the decoder reads
+    the final `firstSTKnown/firstSTChangeOn`, the appender's evolve), that `firstSTChangeOn` never changes
+    once set and never exceeds 127, the header byte parse, samples 0 and 1, byte packing. -/
+theorem xor2_roundtrip_partial (h : xor2_step_full) (ss : List ChunkXor2.Sample3)
+    (hlen : ss.length ≤ 65535) (hwf : ChunkXor2.WF3 ss) :
+    ChunkXor2.decodeChunk (ChunkXor2.encodeBytes ss) = (ss, true) :=
+  ChunkXor2.roundtrip_bytes h ss hlen hwf
+
+/-- The unconditional statement (= `xor2_roundtrip_partial` without its hypothesis). Checked on every run by
+    the judge and byte-exactly by suite `chunk2`. This is also the ST round trip (`AtST`): the triples carry it. -/
+def xor2_roundtrip_full : Prop :=
+  ∀ ss : List ChunkXor2.Sample3, ss.length ≤ 65535 → ChunkXor2.WF3 ss →
+    ChunkXor2.decodeChunk (ChunkXor2.encodeBytes ss) = (ss, true)
+
+def five : List ChunkXor2.Sample3 :=
+  [(900, 1000, 0x3ff0000000000000), (900, 2000, 0x4000000000000000), (900, 3000, ChunkXor2.staleNaN),
+   (2500, 4000, 0x4008000000000000), (2500, 4007, 0x4008000000000000)]
+
+example : ChunkXor2.WF3 five := by
+  intro s hs
+  simp only [five, List.mem_cons, List.mem_nil_iff, or_false] at hs
+  rcases hs with rfl | rfl | rfl | rfl | rfl <;> decide
+
+/-- Proved instance: value change, staleness marker, ST change at index 3, dod ≠ 0, repeated value. -/
+theorem xor2_roundtrip_instance : ChunkXor2.decodeChunk (ChunkXor2.encodeBytes five) = (five, true) := by
+  decide +kernel
+
+/-- Reload the XOR2 chunk holding `ss₁` (`FromData` + `Appender()`), resume appending `ss₂`, iterate. -/
+def resumed2 (ss₁ ss₂ : List ChunkXor2.Sample3) : Option (List ChunkXor2.Sample3 × Bool) :=
+  match ChunkXor2.reopen (ChunkXor2.encodeBytes ss₁) with
+  | none => none
+  | some c =>
+    match c.appendAll ss₂ with
+    | .error _ => none
+    | .ok c' => some (ChunkXor2.decodeChunk c'.bytes)
+
+/-- Full resume clause for XOR2: for every split point, reloading after `ss₁` and resuming with `ss₂`
+    reads back `ss₁ ++ ss₂` (in particular when `ss₁` ends in a staleness marker: the resumed appender
+    must be seeded from the iterator's baseline, not its current value). As for the classic chunk, byte
+    equality with continuous appending does not hold in general (window `(0,0)` vs `0xff` after a reload).
+    NOT YET PROVED in general; checked by the judge at every position on every run. -/
+def xor2_resume_eq_continue_full : Prop :=
+  ∀ ss₁ ss₂ : List ChunkXor2.Sample3, ChunkXor2.WF3 (ss₁ ++ ss₂) → (ss₁ ++ ss₂).length ≤ 65535 →
+    resumed2 ss₁ ss₂ = some (ss₁ ++ ss₂, true)
+
+/-- Proved instances: every split point of `five` (k = 3: reload right after the staleness marker). -/
+theorem xor2_resume_eq_continue_partial :
+    ∀ k ∈ [0, 1, 2, 3, 4, 5], resumed2 (five.take k) (five.drop k) = some (five, true) := by
   decide +kernel
 
 end Prom.C10
